@@ -363,7 +363,7 @@ def element_twins(ctx, res, c):
 
 # --------------------------------------------------------------------------- documents / containers / parts
 
-DOC_PRE = ["none", "touch_body", "touch_all", "edit_body", "add_file", "add_many", "set_part_xml", "del_part", "meta", "partial_load"]
+DOC_PRE = ["none", "touch_body", "touch_all", "edit_body", "add_file", "add_many", "set_part_xml", "del_part", "meta", "partial_load", "generator"]
 DOC_OPS = ["append_paragraph", "meta_title", "add_file_io", "del_part_binary", "insert_style", "table_set_value", "set_part_binary", "touch_manifest", "meta_userdef"]
 
 
@@ -399,6 +399,9 @@ def doc_twins(ctx, res, c):
             elif pre == "partial_load":
                 a.get_part("mimetype")
                 a.meta
+            elif pre == "generator":
+                # the application names itself: "the signature of the software that generated this document"
+                a.meta.generator = f"vf application {k}"
         except Exception as e:
             res.violation(f"document:pre-edit-raised:{pre}:{type(e).__name__}", {"exc": repr(e)}, {"case": case})
             return
@@ -505,6 +508,9 @@ def doc_twins(ctx, res, c):
             v = DL.compare_states(rdf_adjust({k2: v2 for k2, v2 in E.items() if not k2.endswith("/")}, A), A, what="document:twin-saved")
             res.judge()
             res.cls(("Document", "twin-save", which, "pre=" + pre), True)
+            if not v and pre == "generator" and "meta.xml" not in m.frozen and f"vf application {k}".encode() not in A.get("meta.xml", b""):
+                # what the twins write must not tell them apart: the signature given before the cloning is in both files
+                v = [("document:twin-saved:generator-set-before-cloning-lost", {"meta": A.get("meta.xml", b"")[-300:].decode("utf8", "replace")})]
             if v:
                 mname, d = v[0]
                 res.violation(mname, dict(d, which=which, pre=pre), {"case": case, "ops": ops})
